@@ -92,6 +92,61 @@ func (L *lruCtx) elemOfItem(v ssa.Value) ssa.Value {
 	return fa.X
 }
 
+// removedAround: the element elem (whose item's key the delete `del` uses) is the very element handed to list.Remove
+// in the same activation: the same SSA value (the same `back := list.Back()`, loop variable or parameter) is the
+// argument of a Remove call of fn, and either
+//
+//	(a) every path from elem's definition (the function entry for a parameter) to the delete passes such a Remove
+//	    (`l.Remove(e); it := e.Value.(*item); delete(m, it.key)` — Remove leaves e.Value in place), or
+//	(b) every path from the delete to a return, or to the point where elem is defined anew (the next iteration of the
+//	    eviction loop), passes such a Remove (`delete(m, e.Value.(*item).key); l.Remove(e)`).
+//
+// Measuring from elem's definition (not from the function entry) keeps a Remove of the *previous* iteration's element
+// from vouching for this iteration's delete. An element of another variable (Front() while Back() is removed, another
+// call of Back()) is a different SSA value and is not accepted.
+func (L *lruCtx) removedAround(fn *ssa.Function, del ssa.Instruction, elem ssa.Value) bool {
+	elem = peel(elem)
+	isRemove := func(i ssa.Instruction) bool {
+		call, ok := i.(*ssa.Call)
+		return ok && calleeName(&call.Call) == "(*container/list.List).Remove" && len(call.Call.Args) == 2 && peel(call.Call.Args[1]) == elem
+	}
+	n := 0
+	allInstrs(fn, func(i ssa.Instruction) {
+		if isRemove(i) {
+			n++
+		}
+	})
+	if n == 0 {
+		return false
+	}
+	var def ssa.Instruction // nil: a parameter, defined at the function entry
+	switch d := elem.(type) {
+	case *ssa.Parameter:
+		if d.Parent() != fn {
+			return false
+		}
+	case ssa.Instruction:
+		if d.Parent() != fn {
+			return false
+		}
+		def = d
+	default:
+		return false
+	}
+	fc := L.c.fc
+	isDel := func(i ssa.Instruction) bool { return i == del }
+	if fc.pathAvoiding(fn, def, isDel, isRemove) == nil {
+		return true
+	}
+	leaves := func(i ssa.Instruction) bool {
+		if _, ok := i.(*ssa.Return); ok {
+			return true
+		}
+		return def != nil && i == def
+	}
+	return fc.pathAvoiding(fn, del, leaves, isRemove) == nil
+}
+
 func (L *lruCtx) lookups(fn *ssa.Function) []*ssa.Lookup {
 	var out []*ssa.Lookup
 	allInstrs(fn, func(i ssa.Instruction) {
@@ -258,6 +313,10 @@ func (L *lruCtx) keymatch() {
 				if fa, ok := ld.X.(*ssa.FieldAddr); ok && fieldOf(fa.X.Type(), fa.Field) == L.itKey {
 					if src := L.elemOfItem(fa.X); src != nil {
 						if rc, ok := src.(*ssa.Call); ok && calleeName(&rc.Call) == "(*container/list.List).Remove" {
+							// item := list.Remove(e).(*item): Remove hands back e.Value
+							okDel = true
+						} else if L.removedAround(fn, i, src) {
+							// list.Remove(e) … item := e.Value.(*item) (Remove leaves e.Value in place), in either order
 							okDel = true
 						}
 					}
